@@ -258,6 +258,8 @@ def check_C14(rep, known):
 
 def check_C18(rep, known):
     life_job(rep, [r'C18\.', r'C13\.d:outcome@\d+:save'], known)
+    import splinem
+    engine.process_results(rep, [{'sc': {'kind': 'spline-saveload'}}], [{'results': splinem.saveload(), 'error': None}], [r'C18\.'], known)
     # the exact families replayed through save/load: the *loaded* object must conform to the same predictions
     # (all variable kinds, free time, DAE + collocation, scaling, guesses, parameter kinds)
     import random
